@@ -269,7 +269,9 @@ def make_finder(cfg, **over):
                               exclude_border=c['exclude_border'],
                               brightest=c['brightest'], peakmax=c['peakmax'],
                               xycoords=c.get('xycoords'),
-                              min_separation=c['min_separation'] or None)
+                              min_separation=(c['min_separation'] if (
+                                  c['min_separation']
+                                  or c.get('explicit_zero_sep')) else None))
     ky, kx = c.get('kshape', [7, 7])
     yy, xx = np.mgrid[0:ky, 0:kx]
     kern = np.exp(-((xx - kx // 2) ** 2 + (yy - ky // 2) ** 2)
@@ -480,7 +482,14 @@ def _after_select(case, ctx, cfg, kind, f, img, mask, t, nwarn, rows_open, cols,
     conv = convolve(img, kd, mode='constant', cval=0.0)
     thr_eff = cfg['threshold'] * K.relerr if kind == 'dao' else cfg['threshold']
     ms = f.min_separation
-    if kind == 'iraf' and not cfg['min_separation']:
+    if kind == 'iraf' and cfg.get('explicit_zero_sep') \
+            and not cfg['min_separation']:
+        # an explicit 0 is legal and means "the kernel footprint", not the
+        # default separation
+        ctx.event('iraf_explicit_zero_separation')
+        require(ms == 0, 'explicit_zero_min_separation',
+                f'iraf: min_separation=0 was given, the finder uses {ms}')
+    elif kind == 'iraf' and not cfg['min_separation']:
         # documented default: int(fwhm * minsep_fwhm + 0.5), at least 2
         exp_ms = max(2, int(cfg['fwhm'] * 2.5 + 0.5))
         require(ms == exp_ms, 'default_min_separation',
@@ -569,6 +578,21 @@ def _after_select(case, ctx, cfg, kind, f, img, mask, t, nwarn, rows_open, cols,
                 raise Violation('xycoords_row_elsewhere',
                                 f'{kind}: source at ({r[0]:.2f},{r[1]:.2f}) is not '
                                 f'near any supplied xycoords position', kind=kind)
+        # the positions *replace* peak finding: the detection threshold takes
+        # no part in which of them are returned (x, y compared; DAOStarFinder's
+        # flux and mag are defined relative to the threshold)
+        with warnings.catch_warnings():
+            warnings.simplefilter('ignore')
+            tc = make_finder(cfg, xycoords=P, threshold=abs(cfg['threshold']) * 1e6 + 1e6,
+                             **OPEN)(img.copy(), mask=mask)
+        xy_b = sorted((r[0], r[1]) for r in ro)
+        xy_c = sorted((r[0], r[1]) for r in _rows(tc))
+        if xy_b != xy_c:
+            raise Violation('xycoords_threshold_dependent',
+                            f'{kind}: with xycoords, {len(xy_b)} positions are '
+                            f'returned at threshold {cfg["threshold"]} but '
+                            f'{len(xy_c)} at a threshold no pixel exceeds',
+                            kind=kind)
         ctx.event('arbitrary_xycoords_checked')
 
 
@@ -599,7 +623,8 @@ def star_cases(draw):
            'exclude_border': draw(st.booleans()),
            'brightest': draw(st.sampled_from([None, None, 1, 2, 3])),
            'peakmax': draw(st.sampled_from([None, None, 60.0, 120.0])),
-           'min_separation': draw(st.sampled_from([0.0, 0.0, 2.5, 4.0, 1.5, 3.3]))}
+           'min_separation': draw(st.sampled_from([0.0, 0.0, 2.5, 4.0, 1.5, 3.3])),
+           'explicit_zero_sep': draw(st.booleans())}
     return {'scene': {'shape': [ny, nx], 'stars': stars,
                       'noise': draw(st.sampled_from([0.3, 1.0])),
                       'noise_seed': draw(st.integers(0, 10**6)),
